@@ -188,10 +188,12 @@ pub fn gen_sys(rng: &mut Rng, n: usize, affine: bool) -> Sys {
         }
     }
     let a = matmul(n, &matmul(n, &u, &sig), &vt);
-    let scale = match rng.below(5) {
+    // (roots far from the origin: a stopping rule must stay absolute, |update| <= tol, there)
+    let scale = match rng.below(6) {
         0 => 0.0,
         1 => 100.0,
         2 => 0.01,
+        3 => rng.log10(3.0, 5.0),
         _ => 1.0,
     };
     let r: Vec<f64> = (0..n).map(|_| rng.r(-1.0, 1.0) * scale).collect();
@@ -461,6 +463,9 @@ fn regular_case(rng: &mut Rng, rep: &mut Report) {
         let mut n_max = 30 + rng.below(70);
         let method = if which == 0 { Method::Newton } else { Method::Secant { h: rng.log10(-6.0, -3.0) } };
         let rn = norm(&sys.r);
+        if rn >= 500.0 {
+            rep.count(&format!("{}/runs_with_root_far_from_the_origin", method.name()), 1);
+        }
         if which == 0 && rng.below(3) == 0 && tol >= 100.0 * sys.cond * EPS * (1.0 + rn + rad) {
             // a cap that the convergence theory says is sufficient: with h_k = |A^-1| Lip e_k the
             // errors obey e_{k+1} <= h_k e_k / (2 (1 - h_k)); the iteration returns at the first
